@@ -329,3 +329,75 @@ if __name__ == "__main__":
     t = time.time()
     f = load()
     print("bodies", len(f.bodies), "adts", len(f.adts), "consts", len(f.consts), "in %.1fs" % (time.time() - t))
+
+
+# ------------------------------------------------------------------------------------------------
+# whole-crate queries used by structural rules
+
+def _iter_calls(facts, include_noise=False):
+    for b in facts.bodies:
+        for bi, blk in enumerate(b.blocks):
+            t = blk["t"]
+            if t["k"] == "call" and "path" in t["func"]:
+                if not include_noise and t.get("sp", {}).get("n"):
+                    continue
+                f = t["func"]
+                name = norm(f["res"]["path"]) if f.get("res") else norm(f["path"])
+                yield b, bi, t, name
+
+
+def calls_to(facts, pred):
+    """All call sites (body, block, terminator, callee name) whose resolved callee name satisfies pred."""
+    return [(b, bi, t, name) for (b, bi, t, name) in _iter_calls(facts) if pred(name)]
+
+
+def aggregates_of(facts, adt_npath):
+    """All construction sites of an ADT: (body, block, stmt index, rvalue)."""
+    out = []
+    for b in facts.bodies:
+        for bi, blk in enumerate(b.blocks):
+            for si, st in enumerate(blk["st"]):
+                if st["k"] == "assign" and st["rv"]["k"] == "agg" and st["rv"].get("ak") == "adt" and norm(st["rv"]["adt"]) == adt_npath:
+                    out.append((b, bi, si, st))
+    return out
+
+
+def field_accesses(facts, adt_npath, field):
+    """All places mentioning field `field` of ADT `adt_npath`: (body, block, kind, span)."""
+    out = []
+
+    def scan_place(b, bi, p, how, sp):
+        for el in p.get("p", []):
+            if el.get("n") == field and norm(el.get("of", "")) == adt_npath:
+                out.append((b, bi, how, sp))
+
+    def scan_op(b, bi, o, how, sp):
+        p = o.get("copy") or o.get("move")
+        if p is not None:
+            scan_place(b, bi, p, how + (":move" if "move" in o else ":copy"), sp)
+    for b in facts.bodies:
+        for bi, blk in enumerate(b.blocks):
+            for st in blk["st"]:
+                if st["k"] != "assign":
+                    continue
+                sp = st["sp"]
+                scan_place(b, bi, st["place"], "write", sp)
+                rv = st["rv"]
+                for key in ("op", "a", "b"):
+                    if isinstance(rv.get(key), dict):
+                        scan_op(b, bi, rv[key], "read", sp)
+                if "place" in rv:
+                    scan_place(b, bi, rv["place"], "ref:" + rv["k"] + ":" + rv.get("bk", ""), sp)
+                for o in rv.get("ops", []):
+                    scan_op(b, bi, o, "read", sp)
+            t = blk["t"]
+            sp = t.get("sp", {})
+            if t["k"] == "call":
+                for a in t["args"]:
+                    scan_op(b, bi, a, "arg", sp)
+                scan_place(b, bi, t["dest"], "write", sp)
+            elif t["k"] == "switch":
+                scan_op(b, bi, t["discr"], "read", sp)
+            elif t["k"] == "drop":
+                scan_place(b, bi, t["place"], "drop", sp)
+    return out
